@@ -34,7 +34,7 @@ RULE = ('configurations: 8 univariate classes (+bounds, KDE options, wrapper var
 ASSUMPTIONS = ['two datasets are different tables/arrays built from specs; a fresh object is built from the same constructor spec']
 
 UNI_DATA = {'A': ('normal', 0.0, 1.0, 40), 'B': ('gamma2', 50.0, 10.0, 90), 'C1': ('const', 3.0, 20),
-            'C2': ('const', -7.5, 5), 'S': ('uniform', 0.0, 1.0, 5)}
+            'C2': ('const', -7.5, 5), 'C0': ('const', 0.0, 8), 'S': ('uniform', 0.0, 1.0, 5)}
 UNI_CONFIGS = [('beta',), ('gamma',), ('gaussian',), ('loglaplace',), ('student_t',), ('uniform',), ('truncated',),
                ('truncated', 'fixed-bounds'), ('kde', None, None, False), ('kde', 'silverman', None, False),
                ('kde', None, 15, False), ('univariate', 'default'), ('univariate', 'parametric'),
@@ -48,7 +48,7 @@ RANDOMISED_BY_DESIGN = {('kde', None, 15, False), ('univariate', 'selection-samp
 
 
 def bounds(tier):
-    return {'uni_configs': len(UNI_CONFIGS), 'datasets_per_kind': {'uni': 5, 'biv': 4, 'gm': 6, 'vine': 5},
+    return {'uni_configs': len(UNI_CONFIGS), 'datasets_per_kind': {'uni': 6, 'biv': 4, 'gm': 6, 'vine': 5},
             'depth': {'fast': 3 if tier == 'quick' else 4, 'slow': 2 if tier == 'quick' else 3}, 'poisons': ['nan', 0.0, 0.731, -0.9]}
 
 
@@ -195,7 +195,7 @@ def _refit(r, case):
         _, last = build(hist)
         exp_exc, exp_obs = fresh[n]
         tag = f'{kind} {label}: fit history {" -> ".join(hist)}'
-        prev = 'after-constant' if (kind == 'uni' and any(h in ('C1', 'C2') for h in hist[:-1])) else \
+        prev = 'after-constant' if (kind == 'uni' and any(h in ('C1', 'C2', 'C0') for h in hist[:-1])) else \
             'after-failed-fit' if any(fresh[h][0] is not None for h in hist[:-1]) else 'after-other-data'
         if isinstance(last, zoo.Raised) != (exp_exc is not None) or \
                 (isinstance(last, zoo.Raised) and last.name != exp_exc.name):
